@@ -274,7 +274,7 @@ def perturb(doc, r):
     """(perturbed copy, name of the perturbation) - the copy differs from doc as data, or (None, None)."""
     paths = list(_paths(doc))
     r.shuffle(paths)
-    kinds = ["type", "char", "empty", "swap", "emptycontainer", "dropkey", "addkey", "nullify"]
+    kinds = ["type", "char", "empty", "swap", "emptycontainer", "dropkey", "addkey", "nullify", "emptykind"]
     r.shuffle(kinds)
     for kind in kinds:
         for path, v in paths:
@@ -327,6 +327,8 @@ def perturb(doc, r):
                     return _replace(doc, path, w), "add-key"
             elif kind == "nullify" and v is not None and path:
                 return _replace(doc, path, None), "value->null"
+            elif kind == "emptykind" and v in ([], {}) and isinstance(v, (list, dict)):
+                return _replace(doc, path, {} if isinstance(v, list) else []), "empty-list<->empty-map"
     return None, None
 
 
@@ -379,7 +381,7 @@ def random_csv_pair(r, opts):
     return trees[0], trees[1]
 
 
-def random_loaded_pair(r, opts):
+def random_loaded_pair(r, opts, cross=None):
     """A random pair of documents written to files and read back by the real loaders (YAML incl. multi-document
     streams, JSON5, JSON) with the build options: what the command does, as opposed to build() above."""
     import json
@@ -388,7 +390,30 @@ def random_loaded_pair(r, opts):
     import graphtage
     import yaml
     from .common import scratch
-    fmt = r.choice(("yaml", "yaml-stream", "yaml-stream", "json5", "json", "xml", "html"))
+    fmt = cross or r.choice(("yaml", "yaml-stream", "yaml-stream", "json5", "json", "xml", "html"))
+    if ">" in fmt:
+        # a cross-format pair: the first document from a property list, the second from another format
+        import plistlib
+
+        def noneless(x):
+            if isinstance(x, dict):
+                return {k: noneless(v) for k, v in x.items() if v is not None}
+            if isinstance(x, list):
+                return [noneless(v) for v in x if v is not None]
+            return x
+        a = noneless(random_doc(r, depth=r.choice((1, 2, 3))))
+        while not isinstance(a, (dict, list)):
+            a = noneless(random_doc(r, depth=2))
+        b = noneless(mutate(a, r))
+        f1, f2 = fmt.split(">")
+        trees = []
+        for f, d in ((f1, a), (f2, b)):
+            fd, path = tempfile.mkstemp(suffix="." + f, dir=scratch())
+            with os.fdopen(fd, "wb") as fh:
+                fh.write(plistlib.dumps(d) if f == "plist" else (json.dumps(d).encode() if f == "json" else yaml.safe_dump(d).encode()))
+            trees.append(graphtage.FILETYPES_BY_TYPENAME[f].build_tree(path, build_options(opts)))
+            os.unlink(path)
+        return trees[0], trees[1]
     if fmt in ("xml", "html"):
         import xml.etree.ElementTree as ET
         ea = random_xml_element(r, 2)
